@@ -43,6 +43,21 @@ class C19(CheckBase):
         if tool == 'dfs':
             inner = c07.CHECK.gen_case(rng, tier, index)
             inner['build'] = 'rel'
+            if rng.chance(0.3) and inner['image'].get('surfaces') and 'genflux' not in inner['image']:
+                # the catalogue listing is the command with the most formatting state (columns, tab stops, fill
+                # characters): exercise it on names and titles containing control characters
+                for sj in inner['image']['surfaces']:
+                    for v in sj['volumes']:
+                        for f in v['files']:
+                            if rng.chance(0.5):
+                                n = rng.randint(2, 7)
+                                f['name'] = bytes(rng.choice([0x09, 0x09, 0x0A, 0x0D, 0x1B, 0x7F, 0x08]) if rng.chance(0.35) else rng.randint(0x41, 0x5A) for _ in range(n))
+                        if rng.chance(0.5):
+                            v['title'] = bytes(rng.choice([0x09, 0x41, 0x42, 0x20]) for _ in range(rng.randint(2, 12)))
+                inner['ops'] = []
+                inner['cmd'] = ['cat']
+                inner['globals'] = rng.choice([[], ['--ui', 'watford'], ['--ui', 'opus'], ['--ui', 'acorn'], ['--dir', 'A']])
+                inner['fault'] = None
         else:
             inner = c08.CHECK.gen_case(rng, tier, index)
             # the one concrete hazard the property names is the default dialect: leave it out more often
@@ -143,6 +158,21 @@ class C19(CheckBase):
             self.msan_pair(ctx, out, case)
         ref, argv = self.run_one(ctx, case, 'rel')
         out.add_run(ref, ref=True)
+        # the same plan once more on each build: state that only assert() initialises shows as a NDEBUG build whose
+        # two identical runs differ while the assertion build's agree
+        again = {}
+        for build in ('rel', 'rel-assert'):
+            a, _ = self.run_one(ctx, case, build)
+            b, _ = (ref, None) if build == 'rel' else self.run_one(ctx, case, build)
+            out.add_run(a)
+            again[build] = (a.exit_class(), a['stdout'], a['stderr']) != (b.exit_class(), b['stdout'], b['stderr'])
+        if again['rel'] and not again['rel-assert']:
+            out.violate('C19.c.nondet', '%s: two identical simulated runs of the NDEBUG build differ while the assertion build is repeatable: it reads state that is initialised only when assertions are compiled in' % ' '.join(argv),
+                        {'tool': case['tool'], 'what': 'ndebug-nondeterministic'}, case)
+            return out
+        if again['rel'] or again['rel-assert']:
+            out.probe('both-builds-unrepeatable(C18.d)')
+            return out
         wl = case['tool'] + ':' + (case['inner']['cmd'][0] if case['tool'] == 'dfs' else ('dialect' if case['inner']['dialect'] else 'no-dialect'))
         for build in ('rel-assert', 'dbg'):
             r, _ = self.run_one(ctx, case, build)
